@@ -214,6 +214,36 @@ for short_km, n_fused in ((10, 1), (4, 2), (30, 1)):
         check({'elements': els, 'connections': [{'from_node': x, 'to_node': y} for x, y in cons]}, equipment(), key, 'fused')
     except Exception as e:
         wit.append({'key': key, 'problems': [f'{type(e).__name__}: {e}'[:300]]})
+# gain mode, operator gain on an amplifier with an input VOA: kept unless the amplifier would really saturate (known finding F53:
+# the saturation estimate of an imposed model leaves the amplifier's own input VOA out)
+if POWERS:
+    for in_voa, gain in ((3.0, 25.69), (0.0, 22.5)):
+        cases += 1
+        eq = equipment()
+        eq['Span']['default'].power_mode = False
+        els = [_trx('trx A'), _trx('trx B'), _roadm('roadm A'), _roadm('roadm B'), edfa('boo', 'std_medium_gain', {'gain_target': 20.0, 'tilt_target': 0, 'out_voa': 0}),
+               _fiber('f1', 95), edfa('E1', 'std_medium_gain', {'gain_target': gain, 'tilt_target': 0, 'out_voa': 0, 'in_voa': in_voa}), _fiber('f2', 100),
+               _fiber('back', 80)]
+        chain = ['trx A', 'roadm A', 'boo', 'f1', 'E1', 'f2', 'roadm B', 'trx B']
+        cons = list(zip(chain, chain[1:])) + [('trx B', 'roadm B'), ('roadm B', 'back'), ('back', 'roadm A'), ('roadm A', 'trx A')]
+        try:
+            net, eq = design({'elements': els, 'connections': [{'from_node': x, 'to_node': y} for x, y in cons]}, eq)
+            boo = next(n for n in net.nodes() if n.uid == 'boo')
+            e1 = next(n for n in net.nodes() if n.uid == 'E1')
+            f1 = next(n for n in net.nodes() if n.uid == 'f1')
+            nch = eq['SI']['default'].nb_channel if hasattr(eq['SI']['default'], 'nb_channel') else None
+            from gnpy.core.utils import automatic_nch
+            si_ = eq['SI']['default']
+            tot_in_boo = si_.power_dbm + 10 * np.log10(automatic_nch(si_.f_min, si_.f_max, si_.spacing)) + (-20 - si_.power_dbm)
+            out_boo = tot_in_boo + boo.effective_gain - boo.out_voa
+            out_e1 = out_boo - float(f1.loss) - in_voa + gain
+            p_max = eq['Edfa']['std_medium_gain'].p_max
+            if out_e1 <= p_max - 0.05 and abs(e1.effective_gain - gain) > 1e-6:
+                wit.append({'key': 'gain-mode-saturation-estimate-ignores-the-input-voa' if in_voa else f'gain mode: operator gain {gain} dB',
+                            'problems': [f'E1: operator gain {gain} dB with in_voa {in_voa} dB would give {out_e1:.2f} dBm total (p_max {p_max} dBm), '
+                                         f'yet the designed gain is {e1.effective_gain:.2f} dB']})
+        except Exception as e:
+            wit.append({'key': f'gain mode: operator gain {gain} dB, in_voa {in_voa}', 'problems': [f'{type(e).__name__}: {e}'[:300]]})
 # long fibres with an input attenuator, and with both effective area and gamma given: the attenuator once, the same fibre in every span
 for extra in ({'att_in': 3.0}, {'effective_area': 83e-12, 'gamma': 0.002}, {'att_in': 1.5, 'effective_area': 70e-12, 'gamma': 0.0011}, {'gamma': 0.0016}):
     cases += 1
